@@ -297,13 +297,9 @@ macro_rules! enc_ckey_batch {
 // @catches >= vs > against the next page's first key, result stored at the sorted instead of the original position, cursor not advanced / advanced too far between pages, probe below the first page
 enc_ckey_batch!(c03_enc_ckey_batch_p2_2, 4, [2, 2], 3, false);
 // @end
-// @family prop=C03 tier=thorough timeout=3300 mem=24 role=encoding-ckey-batch-wide
-// @bounds 3 pages (1,2,1 entries) for batch_find_encodings; otherwise as encoding-ckey-batch
-// @encodes cascette_formats::encoding::EncodingFile::batch_find_encodings
-// @assumes builder invariant as in encoding-ckey-find
-// @catches as encoding-ckey-batch, with a middle page (both neighbours present)
-enc_ckey_batch!(c03_enc_ckey_batch_p1_2_1, 4, [1, 2, 1], 4, false);
-// @end
+// NOT REGISTERED (measured in the thorough tier: tool error / out of memory after 241 s, 2.9 M variables; earlier
+// attempts did not finish in 19 min): batch_find_encodings on 3 pages (1,2,1 entries).
+// enc_ckey_batch!(c03_enc_ckey_batch_p1_2_1, 4, [1, 2, 1], 4, false);
 // batch_find_all_encodings is OUT OF REACH (stated in the report): `results[orig_idx].clone_from(&entry.encoding_keys)`
 // writes a Vec at a symbolic position; measured: batch of 2 on 2x2 entries exhausts 24 GB, batch of 1 exhausts 16 GB
 // during propositional reduction (harness body = enc_ckey_batch! with the last argument `true`).  Its page-walk is a
